@@ -33,6 +33,7 @@ type c19delegate struct {
 	failOn int
 	calls  int
 	starts []int64
+	passOf map[*Request]int
 }
 
 func (d *c19delegate) GenerateRequests(ctx context.Context, r *Range) (<-chan *Request, error) {
@@ -48,12 +49,32 @@ func (d *c19delegate) GenerateRequests(ctx context.Context, r *Range) (<-chan *R
 	if err != nil {
 		return nil, err
 	}
-	return d.inner.GenerateRequests(ctx, r)
+	inner, err := d.inner.GenerateRequests(ctx, r)
+	if err != nil {
+		return nil, err
+	}
+	// forward under the context the live generator handed to THIS pass, remembering which pass each
+	// request belongs to (the consumer cannot tell from the stream alone where a pass was cut)
+	pass := d.calls
+	out := make(chan *Request, cap(inner))
+	go func() {
+		defer close(out)
+		for req := range inner {
+			d.passOf[req] = pass
+			select {
+			case <-ctx.Done():
+				return
+			case out <- req:
+			}
+		}
+	}()
+	return out, nil
 }
 
 type c19got struct {
-	t  int64
-	ip string
+	t    int64
+	ip   string
+	pass int
 }
 
 type c19run struct {
@@ -115,7 +136,7 @@ func c19scenario(s c19scn) (st *c19run, cfg func(*vs.Sched), main func()) {
 		if s.exclude != "" {
 			inner = NewFilterIPRequestGenerator(inner, c19excl{s.exclude})
 		}
-		st.del = &c19delegate{inner: inner, failOn: s.failOn}
+		st.del = &c19delegate{inner: inner, failOn: s.failOn, passOf: map[*Request]int{}}
 		_, subnet, _ := net.ParseCIDR(s.subnet)
 		out, err := NewLiveRequestGenerator(st.del, s.interval).GenerateRequests(ctx, &Range{DstSubnet: subnet, SrcIP: net.IP{10, 0, 0, 5}.To4()})
 		if err != nil {
@@ -138,7 +159,7 @@ func c19scenario(s c19scn) (st *c19run, cfg func(*vs.Sched), main func()) {
 				if r.Err != nil {
 					ip = "error:" + r.Err.Error()
 				}
-				vs.Visible("got", func() { st.got = append(st.got, c19got{vs.VNow(), ip}) })
+				vs.Visible("got", func() { st.got = append(st.got, c19got{vs.VNow(), ip, st.del.passOf[r]}) })
 				if s.slow > 0 {
 					time.Sleep(s.slow)
 				}
@@ -183,6 +204,31 @@ func c19check(s c19scn, st *c19run) vs.CheckFunc {
 		}
 		if !st.cancelled {
 			return "closed-uncancelled", fmt.Errorf("the live stream ended at %v although the scan was never cancelled (%d requests, %d passes)", time.Duration(st.closedAt), len(st.got), len(st.del.starts))
+		}
+		// by the delegate's own tags: every pass except the one cancellation cut (the last one started) delivers
+		// each target exactly once, and the stream never goes back to an earlier pass
+		byPass := map[int]map[string]int{}
+		lastPass := 0
+		for _, g := range st.got {
+			if g.pass < lastPass {
+				return "pass-order", fmt.Errorf("a request of pass %d arrives after requests of pass %d", g.pass, lastPass)
+			}
+			lastPass = g.pass
+			if byPass[g.pass] == nil {
+				byPass[g.pass] = map[string]int{}
+			}
+			byPass[g.pass][g.ip]++
+		}
+		for p, m := range byPass {
+			cut := st.cancelled && p == len(st.del.starts)
+			for _, tg := range targets {
+				if m[tg] > 1 {
+					return "dup-in-pass", fmt.Errorf("pass %d delivers %s %d times", p, tg, m[tg])
+				}
+				if m[tg] == 0 && !cut {
+					return "incomplete-pass", fmt.Errorf("pass %d (of %d started) never delivered %s although a later pass followed / the scan was not cancelled during it: %d of %d targets delivered", p, len(st.del.starts), tg, len(m), len(targets))
+				}
+			}
 		}
 		// split into passes of len(targets)
 		n := len(targets)
@@ -258,7 +304,7 @@ func verifC19(c *drv.Ctx) {
 		{subnet: "10.0.1.0/30", interval: 1, stopAfter: 9, bound: 1},
 		{subnet: "10.0.1.0/30", exclude: "10.0.1.2", interval: 400 * time.Millisecond, slow: 100 * time.Millisecond, stopAfter: 8, bound: 1},
 		{subnet: "10.0.1.4/31", interval: 10 * time.Second, slow: 7 * time.Second, stopAfter: 6, bound: 1},
-		{subnet: "10.0.1.0/30", interval: time.Second, slow: 400 * time.Millisecond, stopAfter: 9, bound: 1}, // a pass (1.2 s) outlasts the interval
+		{subnet: "10.0.1.0/29", interval: time.Second, slow: 400 * time.Millisecond, stopAfter: 17, bound: 1}, // a pass (2.8 s) outlasts the interval several times over
 		{subnet: "10.0.1.0/30", interval: 10 * time.Second, failOn: 2, bound: 1},
 		{subnet: "10.0.1.0/31", interval: 1, failOn: 3, bound: 1},
 		{subnet: "10.0.1.7/32", interval: time.Second, stopAfter: 4, bound: 2},
